@@ -3,6 +3,7 @@ package h
 // Schedule control on top of the verif hook points: seeded noise, and the parking scheduler.
 
 import (
+	"fmt"
 	"math/rand"
 	"runtime"
 	"sync"
@@ -41,4 +42,278 @@ func noiseHook(seed int64, tag string) func() {
 			hookMu.Unlock()
 		})
 	}
+}
+
+// ---- parking scheduler ----------------------------------------------------------------------
+// A concurrent test case is a script. Client operations run in lanes (goroutines started by the
+// script); a lane runs until it finishes or reaches a hook point the script armed for it, where it
+// parks until resumed. Background goroutines of rosmar (feed loops, expiry timer, updateAfter) can
+// be held at gates. Only hook points reached without a rosmar lock held are used for parking, so a
+// parked lane never blocks the lane that runs. The interleaving is therefore a function of the
+// script alone and replays exactly.
+
+type Lane struct {
+	Name   string
+	gid    int64
+	arm    map[string]bool
+	parked string        // hook it is parked at ("" = running or done)
+	resume chan struct{} // closed to let it continue
+	event  chan string   // "parked:<hook>" / "done"
+	done   bool
+	Result any
+}
+
+type gate struct {
+	waiting int
+	open    chan struct{}
+}
+
+type Sched struct {
+	mu      sync.Mutex
+	tag     string
+	lanes   map[string]*Lane
+	byGID   map[int64]*Lane
+	gates   map[string]*gate
+	gateCh  chan string // notifications "gate:<hook>"
+	hits    map[string]int
+	stopped bool
+	Grace   time.Duration // how long Start/Resume wait before reporting "running" (0 = watchdog time)
+}
+
+func curGID() int64 {
+	var buf [64]byte
+	n := runtime.Stack(buf[:], false)
+	// "goroutine 123 [running]:"
+	var id int64
+	for _, c := range buf[10:n] {
+		if c < '0' || c > '9' {
+			break
+		}
+		id = id*10 + int64(c-'0')
+	}
+	return id
+}
+
+// NewSched installs the scheduler as the process-global hook handler for bucket `tag`.
+func NewSched(tag string) *Sched {
+	hookMu.Lock()
+	s := &Sched{tag: tag, lanes: map[string]*Lane{}, byGID: map[int64]*Lane{}, gates: map[string]*gate{}, gateCh: make(chan string, 64), hits: map[string]int{}}
+	rosmar.VerifSetHook(s.onHook)
+	return s
+}
+
+// Stop releases everything that is parked and uninstalls the handler.
+func (s *Sched) Stop() {
+	s.mu.Lock()
+	if s.stopped {
+		s.mu.Unlock()
+		return
+	}
+	s.stopped = true
+	for _, l := range s.lanes {
+		if l.parked != "" {
+			l.parked = ""
+			close(l.resume)
+		}
+	}
+	for _, g := range s.gates {
+		close(g.open)
+	}
+	s.gates = map[string]*gate{}
+	s.mu.Unlock()
+	rosmar.VerifSetHook(nil)
+	hookMu.Unlock()
+}
+
+func (s *Sched) onHook(name, tag string) {
+	if tag != "" && tag != s.tag {
+		return
+	}
+	gid := curGID()
+	s.mu.Lock()
+	if s.stopped {
+		s.mu.Unlock()
+		return
+	}
+	s.hits[name]++
+	if l := s.byGID[gid]; l != nil {
+		if l.arm[name] {
+			l.parked = name
+			ch := make(chan struct{})
+			l.resume = ch
+			s.mu.Unlock()
+			l.event <- "parked:" + name
+			<-ch
+			return
+		}
+		s.mu.Unlock()
+		return
+	}
+	if g := s.gates[name]; g != nil {
+		g.waiting++
+		ch := g.open
+		s.mu.Unlock()
+		select {
+		case s.gateCh <- name:
+		default:
+		}
+		<-ch
+		return
+	}
+	s.mu.Unlock()
+}
+
+// ParkHere lets harness code running inside a lane (an Update callback, a feed callback that
+// belongs to a lane) park as if it were a hook point.
+func (s *Sched) ParkHere(name string) { s.onHook(name, s.tag) }
+
+// Start runs fn in a new lane until it finishes or parks at one of the armed hooks.
+// Returns "done" or "parked:<hook>"; "hang" if neither happens within the watchdog time.
+func (s *Sched) Start(name string, arm []string, fn func()) string {
+	l := &Lane{Name: name, arm: map[string]bool{}, event: make(chan string, 4)}
+	for _, a := range arm {
+		l.arm[a] = true
+	}
+	s.mu.Lock()
+	s.lanes[name] = l
+	s.mu.Unlock()
+	ready := make(chan struct{})
+	go func() {
+		gid := curGID()
+		s.mu.Lock()
+		l.gid = gid
+		s.byGID[gid] = l
+		s.mu.Unlock()
+		close(ready)
+		defer func() {
+			if r := recover(); r != nil {
+				l.Result = fmt.Sprintf("PANIC: %v", r)
+			}
+			s.mu.Lock()
+			l.done = true
+			delete(s.byGID, gid)
+			s.mu.Unlock()
+			l.event <- "done"
+		}()
+		fn()
+	}()
+	<-ready
+	return s.wait(l, s.Grace)
+}
+
+// wait returns the lane's next event, or "running" if it neither parks nor finishes within the
+// grace period (it is then blocked on a lock held by a parked lane, or simply slow; Await picks
+// the event up later).
+func (s *Sched) wait(l *Lane, grace time.Duration) string {
+	if grace <= 0 {
+		grace = callTimeout
+	}
+	select {
+	case ev := <-l.event:
+		return ev
+	case <-time.After(grace):
+		if grace >= callTimeout {
+			return "hang"
+		}
+		return "running"
+	}
+}
+
+// Await waits (up to the watchdog time) for the next event of a lane that was reported "running".
+func (s *Sched) Await(name string) string {
+	s.mu.Lock()
+	l := s.lanes[name]
+	s.mu.Unlock()
+	if l == nil {
+		return "no-such-lane"
+	}
+	if l.done && len(l.event) == 0 {
+		return "done"
+	}
+	return s.wait(l, 0)
+}
+
+// Resume lets a parked lane continue to its next armed hook (arm replaces the armed set) or to
+// completion.
+func (s *Sched) Resume(name string, arm []string) string {
+	s.mu.Lock()
+	l := s.lanes[name]
+	if l == nil || l.parked == "" {
+		s.mu.Unlock()
+		if l != nil && l.done {
+			return "done"
+		}
+		return "not-parked"
+	}
+	l.arm = map[string]bool{}
+	for _, a := range arm {
+		l.arm[a] = true
+	}
+	l.parked = ""
+	ch := l.resume
+	s.mu.Unlock()
+	close(ch)
+	return s.wait(l, s.Grace)
+}
+
+func (s *Sched) Parked(name string) string {
+	s.mu.Lock()
+	defer s.mu.Unlock()
+	if l := s.lanes[name]; l != nil {
+		return l.parked
+	}
+	return ""
+}
+
+func (s *Sched) LaneResult(name string) any {
+	s.mu.Lock()
+	defer s.mu.Unlock()
+	if l := s.lanes[name]; l != nil {
+		return l.Result
+	}
+	return nil
+}
+
+// Gate arms a gate: background goroutines (not lanes) reaching the hook block until OpenGate.
+func (s *Sched) Gate(hook string) {
+	s.mu.Lock()
+	if s.gates[hook] == nil {
+		s.gates[hook] = &gate{open: make(chan struct{})}
+	}
+	s.mu.Unlock()
+}
+
+// WaitGate waits until at least n goroutines are held at the gate.
+func (s *Sched) WaitGate(hook string, n int, timeout time.Duration) bool {
+	deadline := time.After(timeout)
+	for {
+		s.mu.Lock()
+		g := s.gates[hook]
+		ok := g != nil && g.waiting >= n
+		s.mu.Unlock()
+		if ok {
+			return true
+		}
+		select {
+		case <-s.gateCh:
+		case <-time.After(20 * time.Millisecond):
+		case <-deadline:
+			return false
+		}
+	}
+}
+
+func (s *Sched) OpenGate(hook string) {
+	s.mu.Lock()
+	if g := s.gates[hook]; g != nil {
+		close(g.open)
+		delete(s.gates, hook)
+	}
+	s.mu.Unlock()
+}
+
+func (s *Sched) Hits(hook string) int {
+	s.mu.Lock()
+	defer s.mu.Unlock()
+	return s.hits[hook]
 }
